@@ -140,7 +140,7 @@ func init() {
 		Runs: func(tier string) []runSpec {
 			return []runSpec{{Workload: "C07", Flavour: "plain", Shards: 16, TimeoutS: tq(tier, 900, 7200)}}
 		},
-		Min: mins(map[string]int64{"c07_walks": 200000, "c07_single_hit_lists": 10, "c07_docnum1hit_seen": 10, "c07_replace_actual_subsets": 10000, "c07_random_steps": 20000, "c07_random_lists_card_gt_1024": 5},
+		Min: mins(map[string]int64{"c07_walks": 200000, "c07_single_hit_lists": 10, "c07_docnum1hit_seen": 10, "c07_replace_actual_subsets": 10000, "c07_random_steps": 15000, "c07_random_lists_card_gt_1024": 5},
 			map[string]int64{"c07_walks": 20000000, "c07_single_hit_lists": 20, "c07_docnum1hit_seen": 20, "c07_replace_actual_subsets": 10000, "c07_random_steps": 200000, "c07_random_lists_card_gt_1024": 50}),
 	}
 }
